@@ -636,7 +636,15 @@ func AuthResponseFormPost(res http.ResponseWriter, redirectURI string, response 
 }
 
 func setFragment(uri *url.URL, params url.Values) string {
-	uri.Fragment = params.Encode()
+	// params.Encode() is already percent-encoded: it is the raw fragment.
+	// Assigned to uri.Fragment alone, uri.String() would escape it a second
+	// time (a state "a+b" would reach the client as "a%2Bb").
+	encoded := params.Encode()
+	decoded, err := url.PathUnescape(encoded)
+	if err != nil {
+		decoded = encoded
+	}
+	uri.Fragment, uri.RawFragment = decoded, encoded
 	return uri.String()
 }
 
